@@ -170,12 +170,13 @@ theorem matchOp_clear (p : MPat) (b : Body) (s : StateV) (env : Env) :
   split <;> simp_all
 
 /-- clone, clear the clone, match against the clone -/
-theorem exec_prologue (k : Nat) (arms : List MArm) (σ : MS) (p : MPat) (b : Body) (hp : σ.pat = some p) :
-    exec modelOps k arms prologue σ =
-      .next (match armMatch ⟨p.1, p.2, b⟩ σ.state σ.callEnv with
-             | some e => { σ with armEnv := some e, matched := some true }
-             | none => { σ with armEnv := some (clearVars p.2 σ.callEnv), matched := some false }) := by
-  simp only [prologue, exec, Store.env, Store.setEnv, Store.setB, hp, modelOps, matchOp_clear p b]
+theorem exec_prologue (k : Nat) (arms : List MArm) (rest : Stmt) (σ : MS) (p : MPat) (b : Body) (hp : σ.pat = some p) :
+    exec modelOps k arms (withPrologue rest) σ =
+      exec modelOps k arms rest
+        (match armMatch ⟨p.1, p.2, b⟩ σ.state σ.callEnv with
+         | some e => { σ with armEnv := some e, matched := some true }
+         | none => { σ with armEnv := some (clearVars p.2 σ.callEnv), matched := some false }) := by
+  simp only [withPrologue, exec, Store.env, Store.setEnv, Store.setB, hp, modelOps, matchOp_clear p b]
   cases armMatch ⟨p.1, p.2, b⟩ σ.state σ.callEnv <;> rfl
 
 /-- how the scan of the arms ends, given the model's step -/
@@ -222,27 +223,27 @@ theorem arms_loop (k : Nat) (arms : List MArm) : ∀ (l : List MArm) (σ : MS) (
       simp only [armFn, armDispatch, exec, loopStep, List.filterMap_cons, armOf]
       exact ih _ _ _ rfl rfl ht
     | transition p t =>
-      simp only [armFn, armDispatch, transitionArm, exec, List.filterMap_cons, armOf]
-      rw [exec_prologue k arms _ p (.direct t) rfl]
+      simp only [armFn, armDispatch, transitionArm, List.filterMap_cons, armOf]
+      rw [exec_prologue k arms _ _ p (.direct t) rfl]
       simp only []
       cases hm : armMatch ⟨p.1, p.2, .direct t⟩ σ.state σ.callEnv with
       | none =>
-        simp only [Store.evalB, Store.getB, loopStep, Fsm.stepArms, hm]
+        simp only [exec, Store.evalB, Store.getB, loopStep, Fsm.stepArms, hm]
         exact ih _ _ _ rfl rfl ht
       | some env' =>
-        simp only [Store.evalB, Store.getB, Fsm.stepArms, hm]
+        simp only [exec, Store.evalB, Store.getB, Fsm.stepArms, hm]
         exact takenLoop_step env' t σ.state σ.callEnv _
           (taken_loopStep _ l env' t σ.callEnv _ (exec_taken k arms .arm _ env' t (by rfl) (by rfl)))
     | guard p gs =>
-      simp only [armFn, armDispatch, guardArm, exec, List.filterMap_cons, armOf]
-      rw [exec_prologue k arms _ p (.guarded (gs.map toGuard)) rfl]
+      simp only [armFn, armDispatch, guardArm, List.filterMap_cons, armOf]
+      rw [exec_prologue k arms _ _ p (.guarded (gs.map toGuard)) rfl]
       simp only []
       cases hm : armMatch ⟨p.1, p.2, .guarded (gs.map toGuard)⟩ σ.state σ.callEnv with
       | none =>
-        simp only [Store.evalB, Store.getB, Option.map, Bool.not_false, loopStep, Fsm.stepArms, hm]
+        simp only [exec, Store.evalB, Store.getB, Option.map, Bool.not_false, loopStep, Fsm.stepArms, hm]
         exact ih _ _ _ rfl rfl ht
       | some env' =>
-        simp only [Store.evalB, Store.getB, Option.map, Bool.not_true, Fsm.stepArms, hm]
+        simp only [exec, Store.evalB, Store.getB, Option.map, Bool.not_true, Fsm.stepArms, hm]
         have hg := guards_loop k arms env' gs
           { σ with pat := some p, trans := none, guards := some gs, armEnv := some env', matched := some true } rfl ht
         simp only [] at hg
